@@ -326,6 +326,7 @@ func runHeaders(t *testing.T, rc *core.RunCtx) {
 	// not yet moved, old branch rolled back but the new one not yet written,
 	// between two blocks of one rollback) and everything the client reports
 	// is read at that very instant.
+	w.burst = tp.Chance(1, 3)
 	if tp.Chance(1, 3) {
 		for i, k := 0, 1+tp.Intn(3); i < k; i++ {
 			w.armYield(yieldSites[tp.Intn(3)], 1+tp.Intn(10), time.Duration(1+tp.Intn(2000))*time.Millisecond)
@@ -362,6 +363,21 @@ func runHeaders(t *testing.T, rc *core.RunCtx) {
 			p.fhCache = nil
 			if tp.Chance(3, 4) {
 				p.announce(tp.Chance(1, 2), 1+tp.Intn(6))
+			}
+		case k < 59 || k >= 97: // pipelined: headers valid up to an index, then, back to back, headers continuing from the valid part
+			l := 2 + tp.Intn(3)
+			bad := w.mineChain(p.view, l, time.Minute, time.Now().Add(-10*time.Second), l, w.pickRule(p.view.Height+int32(l)), &plan.salt, 0)
+			cont := w.mineChain(bad.Parent, 1+tp.Intn(2), time.Minute, time.Now().Add(-5*time.Second), 0, "", &plan.salt, 0)
+			tips = append(tips, bad, bad.Parent, cont)
+			save := p.view
+			p.setView(bad)
+			rc.Logf("t=%s event: %s sends %d headers of which the last is invalid and, back to back, %d headers continuing from the valid part", w.clock(), p.addr.IP, l, cont.Height-bad.Parent.Height)
+			rc.Probe("pipelined_continuation_of_abandoned_batch")
+			p.announce(true, l)
+			p.setView(cont)
+			p.announce(true, int(cont.Height-bad.Parent.Height))
+			if tp.Chance(1, 2) {
+				p.setView(save)
 			}
 		case k < 65: // unsolicited headers from somewhere in its chain
 			rc.Logf("t=%s event: %s sends unsolicited headers", w.clock(), p.addr.IP)
